@@ -61,9 +61,13 @@ func runSolver(ctx context.Context, sp solverSpec, file string, timeoutMs int, s
 
 // race runs all solvers on a query; the first definite answer wins.
 func race(query string, dir string, id int, timeoutMs int, seed int, all bool) (solveResult, []solveResult) {
+	return raceCtx(context.Background(), query, dir, id, timeoutMs, seed, all)
+}
+
+func raceCtx(parent context.Context, query string, dir string, id int, timeoutMs int, seed int, all bool) (solveResult, []solveResult) {
 	file := filepath.Join(dir, fmt.Sprintf("q%d.smt2", id))
 	os.WriteFile(file, []byte(query), 0o644)
-	ctx, cancel := context.WithCancel(context.Background())
+	ctx, cancel := context.WithCancel(parent)
 	defer cancel()
 	ch := make(chan solveResult, len(solvers))
 	for _, sp := range solvers {
@@ -199,9 +203,13 @@ func Discharge(results []*FuncResult, timeoutMs int, seed int, all bool, keepQue
 			}
 			var r solveResult
 			done := false
+			lq := ""
 			if !o.ExpectSat && (strings.Contains(q, "(forall ") || strings.Contains(q, "(exists ")) {
 				// stage 1: ground instances only, every remaining quantifier dropped (weaker, sound)
-				lq := j.ctx.QueryOpt(o.Hyps, o.Goal, true, QLite)
+				lq = j.ctx.QueryOpt(o.Hyps, o.Goal, true, QLite)
+				if !strings.Contains(lq, "(forall ") && !strings.Contains(lq, "(exists ") {
+					lq = strings.Replace(lq, "(set-logic ALL)", "(set-logic QF_AUFBV)", 1)
+				}
 				lr, _ := race(lq, dir, j.id+1000000, 5000, seed, false)
 				mu.Lock()
 				solverSeconds += float64(lr.ms) / 1000
@@ -213,6 +221,49 @@ func Discharge(results []*FuncResult, timeoutMs int, seed int, all bool, keepQue
 					// a model of the weakened query: only a candidate counterexample, to be
 					// confirmed (or not) by replaying it on the real code
 					o.CandQuery, o.CandSolver = lq, lr.solver
+				}
+			}
+			if !done && lq != "" && o.CandQuery == "" && t > 5000 {
+				// stage 2: the full query and the weakened one side by side; "unsat" from
+				// either is a proof, "sat" only counts from the full query
+				cctx, ccancel := context.WithCancel(context.Background())
+				type tagged struct {
+					r    solveResult
+					lite bool
+				}
+				ch := make(chan tagged, 2)
+				go func() {
+					fr, _ := raceCtx(cctx, q, dir, j.id, t, seed, false)
+					ch <- tagged{fr, false}
+				}()
+				go func() {
+					lr, _ := raceCtx(cctx, lq, dir, j.id+2000000, t, seed, false)
+					ch <- tagged{lr, true}
+				}()
+				var full *solveResult
+				for k := 0; k < 2; k++ {
+					g := <-ch
+					if g.lite {
+						if g.r.status == "unsat" {
+							r, done = g.r, true
+							r.solver += "+inst"
+							break
+						}
+						if g.r.status == "sat" {
+							o.CandQuery, o.CandSolver = lq, g.r.solver
+						}
+					} else {
+						fr := g.r
+						full = &fr
+						if fr.status != "unknown" {
+							r, done = fr, true
+							break
+						}
+					}
+				}
+				ccancel()
+				if !done && full != nil {
+					r, done = *full, true
 				}
 			}
 			if !done {
